@@ -22,7 +22,6 @@ import (
 	"context"
 	"encoding/base64"
 	"fmt"
-	"strconv"
 
 	"github.com/cloudwego/dynamicgo/http"
 	"github.com/cloudwego/dynamicgo/internal/json"
@@ -69,6 +68,22 @@ func decodeString(s string, v types.JsonState, end int) (string, error) {
 	return rt.Mem2Str(buf), nil
 }
 
+// writeNumber writes a JSON number as a value of thrift type t
+func writeNumber(p *thrift.BinaryProtocol, t thrift.Type, v types.JsonState) error {
+	if t == thrift.DOUBLE {
+		if v.Vt == types.V_INTEGER {
+			return p.WriteDouble(float64(v.Iv))
+		}
+		return p.WriteDouble(v.Dv)
+	} else if t.IsInt() {
+		if v.Vt == types.V_INTEGER {
+			return p.WriteInt(t, int(v.Iv))
+		}
+		return p.WriteInt(t, int(v.Dv))
+	}
+	return newError(meta.ErrDismatchType, "json number can't convert to thrift "+t.String(), nil)
+}
+
 func (self *BinaryConv) doRecurse(ctx context.Context, s string, jp int, desc *thrift.TypeDescriptor, p *thrift.BinaryProtocol, req http.RequestGetter, depth int) (ret int, err error) {
 	n := len(s)
 	ret = jp
@@ -92,23 +107,8 @@ func (self *BinaryConv) doRecurse(ctx context.Context, s string, jp int, desc *t
 			}
 			return ret, p.WriteBool(v.Vt == types.V_TRUE)
 
-		case types.V_INTEGER:
-			if t := desc.Type(); t.IsInt() {
-				return ret, p.WriteInt(t, int(v.Iv))
-			} else if t == thrift.DOUBLE {
-				return ret, p.WriteDouble(float64(v.Iv))
-			} else {
-				return ret, newError(meta.ErrDismatchType, "expected thrift INT or DOUBLE type", nil)
-			}
-
-		case types.V_DOUBLE:
-			if t := desc.Type(); t.IsInt() {
-				return ret, p.WriteInt(t, int(v.Dv))
-			} else if t == thrift.DOUBLE {
-				return ret, p.WriteDouble(float64(v.Dv))
-			} else {
-				return ret, newError(meta.ErrDismatchType, "expected thrift INT or DOUBLE type", nil)
-			}
+		case types.V_INTEGER, types.V_DOUBLE:
+			return ret, writeNumber(p, desc.Type(), v)
 
 		case types.V_STRING:
 			var str string
@@ -126,25 +126,19 @@ func (self *BinaryConv) doRecurse(ctx context.Context, s string, jp int, desc *t
 			} else if desc.Type() == thrift.STRING {
 				return ret, p.WriteString(str)
 
-			} else if self.opts.String2Int64 && desc.Type().IsInt() {
-				if str == "" {
-					str = "0"
+			} else if t := desc.Type(); self.opts.String2Int64 && (t.IsInt() || t == thrift.DOUBLE) {
+				// NOTICE: the string must contain exactly one JSON number, as for the native implementation
+				if c := s[v.Iv]; c != '-' && (c < '0' || c > '9') {
+					return int(v.Iv), errSyntax(s, int(v.Iv))
 				}
-				iv, err := strconv.ParseInt(str, 10, 64)
-				if err != nil {
-					return ret, err
+				jp, nv := json.DecodeValue(s, int(v.Iv))
+				if jp < 0 {
+					return int(v.Iv), errSyntax(s, jp)
 				}
-				return ret, p.WriteInt(desc.Type(), int(iv))
-
-			} else if self.opts.String2Int64 && desc.Type() == thrift.DOUBLE {
-				if str == "" {
-					str = "0"
+				if jp != ret-1 {
+					return jp, errSyntax(s, jp)
 				}
-				dv, err := strconv.ParseFloat(str, 64)
-				if err != nil {
-					return ret, err
-				}
-				return ret, p.WriteDouble(dv)
+				return ret, writeNumber(p, t, nv)
 			}
 
 		case types.V_ARRAY:
@@ -213,16 +207,21 @@ func (self *BinaryConv) doRecurse(ctx context.Context, s string, jp int, desc *t
 					if kt.Type() == thrift.STRING {
 						p.WriteString(key)
 
-					} else if kt.Type().IsInt() {
-						//todo: use native
-						i, err := strconv.ParseInt(key, 10, 64)
-						if err != nil {
+					} else if t := kt.Type(); t.IsInt() || t == thrift.DOUBLE {
+						// NOTICE: the key must begin with a JSON number, as for the native implementation
+						if key == "" || (key[0] != '-' && (key[0] < '0' || key[0] > '9')) {
+							return ret, newError(meta.ErrRead, "invalid number key '"+key+"'", nil)
+						}
+						kp, nv := json.DecodeValue(key, 0)
+						if kp < 0 {
+							return ret, errSyntax(key, kp)
+						}
+						if err := writeNumber(p, t, nv); err != nil {
 							return ret, err
 						}
-						p.WriteInt(kt.Type(), int(i))
 
 					} else {
-						return ret, newError(meta.ErrUnsupportedType, "thrift MAP key type must be STRING", nil)
+						return ret, newError(meta.ErrUnsupportedType, "thrift MAP key type must be STRING, INT or DOUBLE", nil)
 					}
 
 					if jp, nt = json.Peek(s, ret); nt != json.Colon {
